@@ -35,7 +35,8 @@ type world struct {
 	cw     *chainx.World
 	hashes [nPrinc]util.Uint160
 	ids    [3]int32
-	ud     util.Uint160 // hash of the fourth instance layer B deploys
+	ud     util.Uint160 // hash of the fourth instance (deployable by account 1)
+	udNEF, udManifest []byte
 }
 
 // buildWorld creates the prepared chain once; replicas replay its blocks.
@@ -81,6 +82,26 @@ func buildWorld(multi bool, pad int) (*world, error) {
 		}
 		txs = append(txs, tx)
 	}
+	// two accounts on the Policy block list, one on each side of the account the
+	// programs block/unblock, so that every change of the cached sorted list
+	// shifts an element
+	target := chainx.Acc(5).ScriptHash()
+	var lo, hi *util.Uint160
+	for i := 10; i < 200 && (lo == nil || hi == nil); i++ {
+		h := chainx.Acc(i).ScriptHash()
+		if c := h.Compare(target); c < 0 && lo == nil {
+			lo = &h
+		} else if c > 0 && hi == nil {
+			hi = &h
+		}
+	}
+	for _, h := range []*util.Uint160{lo, hi} {
+		tx, err := n.MakeTx(chainx.CallScript(nativehashes.PolicyContract, "blockAccount", *h), []neotest.Signer{chainx.Signer(3), n.Committee}, chainx.SysFee(gasUnit))
+		if err != nil {
+			return nil, err
+		}
+		txs = append(txs, tx)
+	}
 	if _, err := n.AddBlock(txs...); err != nil {
 		return nil, fmt.Errorf("setup block: %w", err)
 	}
@@ -99,6 +120,9 @@ func buildWorld(multi bool, pad int) (*world, error) {
 			return nil, err
 		}
 		w.blocks = append(w.blocks, bb)
+	}
+	if w.udManifest, w.udNEF, err = w.udBytes(); err != nil {
+		return nil, err
 	}
 	w.hashes = [nPrinc]util.Uint160{cw.UA.Hash, cw.UB.Hash, cw.UC.Hash, chainx.Acc(1).ScriptHash(), chainx.Acc(2).ScriptHash()}
 	for i, c := range []*neotest.Contract{cw.UA, cw.UB, cw.UC} {
@@ -182,6 +206,8 @@ func (w *world) readState(g getter) (*State, error) {
 		}
 	}
 	s.Fee = bigint.FromBytes(g.get(nativeids.PolicyContract, []byte{10})).Int64()
+	s.Blocked = g.get(nativeids.PolicyContract, append([]byte{15}, chainx.Acc(5).ScriptHash().BytesBE()...)) != nil
+	s.Deployed = g.get(nativeids.ContractManagement, append([]byte{8}, w.ud.BytesBE()...)) != nil
 	return s, nil
 }
 
@@ -222,6 +248,8 @@ func (w *world) toU(ops []Op) []any {
 		switch o.K {
 		case 'E':
 			out = append(out, []any{chainx.OpPut, []byte(fmt.Sprintf("k%d", o.ID)), id}, []any{chainx.OpNotify, o.ID})
+		case 'N':
+			out = append(out, []any{chainx.OpNotify, o.ID})
 		case 'P':
 			out = append(out, []any{chainx.OpPut, []byte("a"), id})
 		case 'D':
@@ -249,6 +277,12 @@ func (w *world) toU(ops []Op) []any {
 			out = append(out, []any{chainx.OpCall, tok, "transfer", 15, []any{from, w.hashes[o.To].BytesBE(), 1, w.bind(w.toU(o.Body), o.To)}})
 		case 'F':
 			out = append(out, []any{chainx.OpCall, pol, "setFeePerByte", 15, []any{1000 + o.ID}})
+		case 'K':
+			out = append(out, []any{chainx.OpCall, pol, "blockAccount", 15, []any{chainx.Acc(5).ScriptHash().BytesBE()}})
+		case 'U':
+			out = append(out, []any{chainx.OpCall, pol, "unblockAccount", 15, []any{chainx.Acc(5).ScriptHash().BytesBE()}})
+		case 'Y':
+			out = append(out, []any{chainx.OpCall, nativehashes.ContractManagement.BytesBE(), "deploy", 15, []any{w.udNEF, w.udManifest, nil}})
 		case 'r':
 			out = append(out, []any{chainx.OpRun, w.hashes[o.To].BytesBE(), o.Flags, w.bind(w.toU(o.Body), o.To)})
 		case 'T':
@@ -286,6 +320,12 @@ func (w *world) script(ops []Op) []byte {
 	if hasOp(ops, 'F') {
 		prog = append(prog, []any{chainx.OpCall, nativehashes.PolicyContract.BytesBE(), "getFeePerByte", 15, []any{}})
 	}
+	if hasAny(ops, "KU") {
+		prog = append(prog, []any{chainx.OpCall, nativehashes.PolicyContract.BytesBE(), "isBlocked", 15, []any{chainx.Acc(5).ScriptHash().BytesBE()}})
+	}
+	if hasOp(ops, 'Y') {
+		prog = append(prog, []any{chainx.OpCall, nativehashes.ContractManagement.BytesBE(), "isContract", 15, []any{w.ud.BytesBE()}})
+	}
 	return chainx.CallScript(w.hashes[pA], "run", prog)
 }
 
@@ -299,6 +339,9 @@ func (w *world) name(b []byte) (string, bool) {
 		if bytes.Equal(h.BytesBE(), b) {
 			return princNames[p], true
 		}
+	}
+	if bytes.Equal(w.ud.BytesBE(), b) {
+		return "D", true
 	}
 	return "", false
 }
@@ -319,6 +362,12 @@ func (w *world) renderItem(sb *strings.Builder, it stackitem.Item) {
 			fmt.Fprintf(sb, "x%x", b)
 		}
 	case *stackitem.Array, *stackitem.Struct:
+		if es := it.Value().([]stackitem.Item); len(es) == 5 {
+			if b, err := es[2].TryBytes(); err == nil && bytes.Equal(b, w.ud.BytesBE()) {
+				sb.WriteString("<UD>") // the contract state deploy returns
+				return
+			}
+		}
 		sb.WriteByte('[')
 		for i, e := range it.Value().([]stackitem.Item) {
 			if i > 0 {
@@ -352,6 +401,8 @@ func (w *world) renderEvents(evs []state.NotificationEvent) []string {
 			sb.WriteString("GAS")
 		case e.ScriptHash == nativehashes.NeoToken:
 			sb.WriteString("NEO")
+		case e.ScriptHash == nativehashes.ContractManagement:
+			sb.WriteString("MGMT")
 		default:
 			if n, ok := w.name(e.ScriptHash.BytesBE()); ok {
 				sb.WriteString(n)
@@ -380,6 +431,13 @@ type real struct {
 
 const sysFee = 3 * gasUnit
 
+func feeFor(ops []Op) int64 {
+	if hasOp(ops, 'Y') {
+		return 25 * gasUnit // deployment costs at least 10 GAS
+	}
+	return sysFee
+}
+
 func (rg *rig) signers(committee bool) []neotest.Signer {
 	s := []neotest.Signer{chainx.Signer(1)}
 	if committee {
@@ -391,7 +449,7 @@ func (rg *rig) signers(committee bool) []neotest.Signer {
 // runTest executes prog in a test invocation on the committed state.
 func (rg *rig) runTest(ops []Op, committee bool) (*real, error) {
 	script := rg.w.script(ops)
-	tx := transaction.New(script, sysFee)
+	tx := transaction.New(script, feeFor(ops))
 	tx.ValidUntilBlock = rg.n.BC.BlockHeight() + 5
 	for _, s := range rg.signers(committee) {
 		tx.Signers = append(tx.Signers, transaction.Signer{Account: s.ScriptHash(), Scopes: transaction.Global})
@@ -401,7 +459,7 @@ func (rg *rig) runTest(ops []Op, committee bool) (*real, error) {
 		return nil, err
 	}
 	ic.VM.LoadScriptWithFlags(script, callflag.All)
-	ic.VM.SetGasLimit(sysFee)
+	ic.VM.SetGasLimit(feeFor(ops))
 	res := &real{}
 	if err := ic.Exec(); err != nil {
 		res.Fault = err.Error()
@@ -422,7 +480,7 @@ func (rg *rig) runTest(ops []Op, committee bool) (*real, error) {
 
 // runBlock executes prog as the only transaction of the next block.
 func (rg *rig) runBlock(ops []Op, committee bool) (*real, error) {
-	tx, err := rg.n.MakeTx(rg.w.script(ops), rg.signers(committee), chainx.SysFee(sysFee))
+	tx, err := rg.n.MakeTx(rg.w.script(ops), rg.signers(committee), chainx.SysFee(feeFor(ops)))
 	if err != nil {
 		return nil, fmt.Errorf("make tx: %w", err)
 	}
@@ -481,6 +539,12 @@ func compare(m *Result, r *real) (what []string, detail []string) {
 	}
 	if m.State.Neo != r.State.Neo {
 		add("neo-balances", fmt.Sprintf("model %v real %v", m.State.Neo, r.State.Neo))
+	}
+	if m.State.Blocked != r.State.Blocked {
+		add("policy-blocked", fmt.Sprintf("model %v real %v", m.State.Blocked, r.State.Blocked))
+	}
+	if m.State.Deployed != r.State.Deployed {
+		add("deployed", fmt.Sprintf("model %v real %v", m.State.Deployed, r.State.Deployed))
 	}
 	if m.State.Fee != r.State.Fee {
 		add("policy-fee", fmt.Sprintf("model %d real %d (negative: cache and storage disagree)", m.State.Fee, r.State.Fee))
